@@ -30,7 +30,7 @@ def gen_check_module(jobdir, module, invariants):
     """TraceCheck.tla EXTENDS the trace spec; every step evaluates the selected invariants on the new state and
     prints <<"VIOL", name, event>> for each false one, so one TLC pass reports every violation of every scenario."""
     src = open('%s/spec/%s.tla' % (V, module)).read()
-    names = re.findall(r'^((?:Inv|Act)_C\d+_\w+)\s*==', src, re.M)
+    names = re.findall(r'^((?:(?:Inv|Act)_C\d+|Conf)_\w+)\s*==', src, re.M)
     missing = [i for i in invariants if i not in names]
     if missing:
         raise Broken('unknown invariants %s in %s' % (missing, module))
